@@ -171,3 +171,25 @@ Theorem C02_write_is_source : forall r,
   ImpGen.imp_fastq_Fastq_Write (ImpProofsG.fq_of r) = GoSem.Ret (Bio.Model.Fastq.write_calls r, false).
 Proof. exact ImpProofsG.imp_Fastq_Write. Qed.
 Print Assumptions C02_write_is_source.
+
+From Bio.Proofs Require ImpProofsK.
+
+(* reader.read as translated from fastq.go — four Scan calls, the '@' and '+' tests, the
+   length test, and the endings: io.EOF only before a record, io.ErrUnexpectedEOF inside one,
+   "fastq read: ..." for a scanner error — answers, for every token list and both terminal
+   conditions, as the model's read_one does: the same record and the same tokens left, the
+   clean end exactly when the model says so, an error other than io.EOF exactly when the
+   model says error.  The *bufio.Scanner is the value GoSem.go_scanner (current token, tokens
+   to come, Err() after the end); how bytes split into tokens is Base.scan_tokens. *)
+Theorem C02_read_is_source : forall cur toks t,
+  ImpProofsK.fq_agrees t (Bio.Model.Fastq.read_one (toks, t))
+    (ImpGen.imp_fastqrd_reader_read (GoSem.Scanner cur toks (ImpProofsK.scan_code t) false)).
+Proof. exact ImpProofsK.imp_fastq_read. Qed.
+Print Assumptions C02_read_is_source.
+
+Example C02_source_read_example :
+  ImpGen.imp_fastqrd_reader_read (GoSem.Scanner [] [bs "@r"; bs "ACG"; bs "+"; bs "!!!"; bs "@s"] 0%Z false)
+  = GoSem.Ret (GoSem.Scanner (bs "!!!") [bs "@s"] 0%Z false, (ImpGen.Imp_fastqrd_Fastq (bs "r") (bs "ACG") (bs "!!!"), 0%Z))
+  /\ ImpGen.imp_fastqrd_reader_read (GoSem.Scanner [] [bs "@r"; bs "ACG"] 0%Z false)
+  = GoSem.Ret (GoSem.Scanner [] [] 0%Z true, (ImpGen.Imp_fastqrd_Fastq [] [] [], 3%Z)).
+Proof. vm_compute. split; reflexivity. Qed.
